@@ -1296,6 +1296,29 @@ def angle_axis_roundtrip(T, lay, cfg, qt, v3, kt, tg, sc):
                         break
             res.append(R.ob('%s.regime%d' % (nm, len(res)), 'axis_angle', status,
                             ('rebuilds q in the regime [%s]' % regime) if ok else ('%s  (regime [%s])' % (why, regime)), kernel=k.source()))
+        if any(r_['status'] == R.UNDECIDED for r_ in res):
+            # last resort for a refutation: the four derived lane terms evaluated (IEEE arithmetic, host libm for the inverse trigonometric functions) at unit quaternions of both
+            # signs of w and both sides of the asin / acos switch: a rebuilt quaternion that is neither q nor -q within 1e-3 there refutes one undecided regime
+            from laneflow import ceval as CE
+            w_ = qt.elem * 8
+            pts = [(-0.96, 0.28, 0.0, 0.0), (-0.936, 0.0, 0.352, 0.0), (-0.6, 0.8, 0.0, 0.0), (-0.28, 0.0, 0.0, 0.96), (0.96, 0.0, 0.28, 0.0), (0.6, 0.0, 0.0, 0.8), (-0.96, 0.0, 0.168, 0.224)]
+            for pt in pts:
+                env = {L.in_term('q', qt, c): CE.f2b(w_, v) for c, v in zip('wxyz', pt)}
+                try:
+                    got_ = [CE.b2f(w_, CE.evaluate(lanes[c], env, approx=True)) for c in 'wxyz']
+                except CE.NoValue:
+                    continue
+                if any(g != g for g in got_):
+                    continue
+                dpos = max(abs(g - v) for g, v in zip(got_, pt))
+                dneg = max(abs(g + v) for g, v in zip(got_, pt))
+                if min(dpos, dneg) > 1e-3:
+                    for r_ in res:
+                        if r_['status'] == R.UNDECIDED:
+                            r_['status'] = R.REFUTED
+                            r_['detail'] += '  -- at q = (w, x, y, z) = %r the rebuilt quaternion is %r: neither q nor -q' % (pt, tuple(round(g, 6) for g in got_))
+                            break
+                    break
         return res
     return [R.Case(nm, [k], guard(nm, [k], body))]
 
